@@ -7,6 +7,7 @@ __all__ = [
 from ..helpers import (
     dict_subtract,
     filter_values,
+    list_subtract,
     map_values,
 )
 from ._higherorder import (
@@ -17,10 +18,25 @@ from ._higherorder import (
 from ._impl import Matcher, Mismatch
 
 
+def _sorted_keys(keys):
+    """The keys in sorted order; keys that cannot be compared with each other
+    (1 and 'a', None and 'a') are ordered by type name and repr instead."""
+    keys = list(keys)
+    try:
+        return sorted(keys)
+    except TypeError:
+        return sorted(keys, key=lambda key: (type(key).__name__, repr(key)))
+
+
+def _sorted_items(a_dict):
+    """The (key, value) pairs of a_dict ordered by `_sorted_keys`."""
+    return [(key, a_dict[key]) for key in _sorted_keys(a_dict)]
+
+
 def LabelledMismatches(mismatches, details=None):
     """A collection of mismatches, each labelled."""
     return MismatchesAll(
-        (PrefixedMismatch(k, v) for (k, v) in sorted(mismatches.items())), wrap=False
+        (PrefixedMismatch(k, v) for (k, v) in _sorted_items(mismatches)), wrap=False
     )
 
 
@@ -57,7 +73,7 @@ class DictMismatches(Mismatch):
         lines.extend(
             [
                 f"  {key!r}: {mismatch.describe()},"
-                for (key, mismatch) in sorted(self.mismatches.items())
+                for (key, mismatch) in _sorted_items(self.mismatches)
             ]
         )
         lines.append("}")
@@ -252,12 +268,17 @@ class KeysEqual(Matcher):
         return "KeysEqual(%s)" % ", ".join(map(repr, self.expected))
 
     def match(self, matchee):
-        from ._basic import _BinaryMismatch, Equals
+        from ._basic import _BinaryMismatch
 
-        expected = sorted(self.expected)
-        matched = Equals(expected).match(sorted(matchee.keys()))
-        if matched:
+        # Same keys, same multiplicities - decided without ordering the keys
+        # (equal keys of different types, 1 and True, have no common order
+        # with 'a'); they are sorted for the description only.
+        keys = list(matchee.keys())
+        if list_subtract(self.expected, keys) or list_subtract(keys, self.expected):
             return AnnotatedMismatch(
-                "Keys not equal", _BinaryMismatch(expected, "does not match", matchee)
+                "Keys not equal",
+                _BinaryMismatch(
+                    _sorted_keys(self.expected), "does not match", matchee
+                ),
             )
         return None
